@@ -27,10 +27,11 @@ var patterns = [][]int{{1}, {7}, {512}, {4096}, {65536}, {512, 1, 3}, {2, 4095},
 var segKinds = []string{"one", "one", "random", "random", "small", "byte"}
 
 type gen struct {
-	r     *hk.Run
-	rng   *hk.Rand
-	xs    []*exch
-	files []*fileScenario
+	r      *hk.Run
+	rng    *hk.Rand
+	xs     []*exch
+	files  []*fileScenario
+	groups []*h2group
 }
 
 func (g *gen) h1(a *aresp, o *h1opts, method, mode, segK string, decode bool) *exch {
@@ -347,6 +348,11 @@ func (g *gen) build() {
 			g.xs = append(g.xs, x)
 		}
 	}
+	// N. round 4: several exchanges in flight on one HTTP/2 connection, frames interleaved, graceful GOAWAY /
+	//    PING barriers in between, DisableKeepAlives
+	for i, n := 0, r.Scale(40, 400); i < n; i++ {
+		g.groups = append(g.groups, genGroup(g, i))
+	}
 	// K. output files as state across exchanges
 	for i, n := 0, r.Scale(24, 300); i < n; i++ {
 		g.files = append(g.files, genFileScenario(rng, i, filepath.Join(r.OutDir, "dl")))
@@ -443,6 +449,38 @@ func runC02(r *hk.Run) {
 		}(w)
 	}
 	wg.Wait()
+	var gwg sync.WaitGroup
+	gsem := make(chan struct{}, 6)
+	for _, grp := range g.groups {
+		gwg.Add(1)
+		gsem <- struct{}{}
+		go func(grp *h2group) {
+			defer gwg.Done()
+			defer func() { <-gsem }()
+			grp.run(srv2, outDir)
+		}(grp)
+	}
+	gwg.Wait()
+	for _, grp := range g.groups {
+		nt := false
+		for _, x := range grp.Members {
+			x.oracle(r)
+			nt = nt || len(x.expectedBody()) > 0
+		}
+		r.Count(fmt.Sprintf("h2-group:members=%d", len(grp.Members)))
+		if grp.NoKeepAlives {
+			r.Count("h2-group:disable-keep-alives")
+		}
+		c := hk.Case{Desc: map[string]interface{}{"kind": "h2-group", "group": grp, "members": descs(grp.Members)}}
+		ok := true
+		for _, x := range grp.Members {
+			ok = ok && !x.s.Hung && x.s.Panic == ""
+		}
+		if ok {
+			c.Coq = grp.coq()
+		}
+		r.Add(c, grp.key(), nt)
+	}
 	for _, sc := range g.files {
 		sc.run(srv)
 		sc.oracle(r)
@@ -524,6 +562,14 @@ func trailerBytes(x *exch) []byte {
 		b = append(b, []byte(t.Name+": "+t.Value+"  \r\n")...)
 	}
 	return b
+}
+
+func descs(xs []*exch) []interface{} {
+	var out []interface{}
+	for _, x := range xs {
+		out = append(out, x.desc())
+	}
+	return out
 }
 
 func lenClass(n int) string {
